@@ -1,5 +1,5 @@
 (* C08: I/O failures during encode always surface as errors; an EncodeBebop that returns nil wrote MarshalBebop's bytes. *)
-Require Import Bebop.wire.Wire Bebop.wire.WireFacts Bebop.wire.Encoders Bebop.wire.EncodersFacts Bebop.props.WireExample.
+Require Import Bebop.wire.Wire Bebop.wire.WireFacts Bebop.wire.Encoders Bebop.wire.EncodersFacts Bebop.wire.StreamDec Bebop.wire.FaultFacts Bebop.props.WireExample.
 
 (* for an ARBITRARY fault pattern over the Write-call indices of the underlying writer *)
 Definition C08_enc_statement : Prop :=
@@ -7,8 +7,6 @@ Definition C08_enc_statement : Prop :=
     (forall j, j < calls (fst (senc nofault s t v ew0)) -> fault j = true -> werr (fst (senc fault s t v ew0)) = true) /\
     (werr (fst (senc fault s t v ew0)) = false -> out (fst (senc fault s t v ew0)) = a).
 
-(* The decode half (a reader failing at any offset makes DecodeBebop return the error) is decided by the exhaustive
-   fault-point enumeration of lib/c08.py against the executable stream model. *)
 Theorem C08_enc : C08_enc_statement.
 Proof.
   intros s fault t v a G. split.
@@ -23,3 +21,11 @@ Example C08_witness :
 Proof. repeat split; vm_compute; reflexivity. Qed.
 
 Print Assumptions C08_enc.
+
+(* The decode half: the io.Reader fails after delivering k bytes of an encoding (any k before its end, any error value -
+   ErrorReader keeps whatever error it meets and the model does not distinguish them -, any chunking of the reads before
+   the failure): DecodeBebop returns, with the latch set, i.e. with that error.  Same theorem as C06's stream half. *)
+Definition C08_dec_statement : Prop := truncation_statement.
+Theorem C08_dec : C08_dec_statement.
+Proof. exact truncation_holds. Qed.
+Print Assumptions C08_dec.
